@@ -382,11 +382,22 @@ func runQueue(ctx *RunCtx) *Result {
 		}
 		// quiescence: everything delivered, time past every startAfter, passes until nothing happens
 		do(qOp{Kind: "clock", T: im.api.now() + 120})
-		for k := 0; k < 4; k++ {
+		// (at least 4 rounds; more while a pass still fails on a left-over injected fault)
+		for k := 0; k < 24; k++ {
 			settle()
+			quiet := true
 			do(qOp{Kind: "sync"})
+			if ob := obs[len(obs)-1]; !ob.OK {
+				quiet = false
+			}
 			for _, id := range indepIDs {
 				do(qOp{Kind: "syncindep", ID: id})
+				if ob := obs[len(obs)-1]; !ob.OK {
+					quiet = false
+				}
+			}
+			if quiet && k >= 3 {
+				break
 			}
 		}
 		settle()
@@ -473,7 +484,19 @@ func queueMonitor(res *Result, ops []qOp, obs []qObs, js interface{}) {
 		}
 		prev = ob.Jobs
 	}
-	// quiescence
+	// quiescence: judged only when the last pass of each reconciler succeeded
+	// (a pass that failed on an injected fault is retried by the work queue: not quiescent yet)
+	for k := len(ops) - 1; k >= 0; k-- {
+		if ops[k].Kind == "sync" || ops[k].Kind == "syncindep" {
+			if !obs[k].OK {
+				res.Count("history-not-quiescent")
+				return
+			}
+			if ops[k].Kind == "sync" {
+				break
+			}
+		}
+	}
 	last := obs[len(obs)-1]
 	active := int64(0)
 	for _, j := range last.Jobs {
